@@ -88,6 +88,15 @@ def run_case(case):
         r, M = ref.evaluate_with_mag(sc, vals, X)
     if not (np.all(np.isfinite(r)) and np.all(np.isfinite(M))):
         return {"nontrivial": False, "classes": ["degenerate-reference"]}
+    # exactly-zero hidden units: in a log-space semiring their logarithm is -inf and the (safe) logarithm
+    # returns zero gradients through them by design, so derivative values are only compared away from them
+    hidden_zero = False
+    if sem != "sum-product":
+        lo, lm = {}, {}
+        with np.errstate(all="ignore"):
+            ref.evaluate(sc, vals, X, layer_out=lo)
+            ref.evaluate(sc, vals, X, mag=True, layer_out=lm)
+        hidden_zero = any(np.any(np.abs(lo[l]) <= 1e-9 * np.abs(lm[l])) for l in lo)
     kind = case["functional"]
     nonzero = np.all(np.abs(r) > 1e-6 * M)
     if not nonzero and sem != "sum-product":
@@ -146,7 +155,7 @@ def run_case(case):
 
     h = 1e-4
     checked = 0
-    for ti, t in enumerate(tensors):
+    for ti, t in enumerate(tensors if not hidden_zero else []):
         d = rng.normal(size=t.shape)
         if np.iscomplexobj(vals[t]):
             d = d + 1j * rng.normal(size=t.shape)
@@ -167,7 +176,7 @@ def run_case(case):
                 raise Violation("gradient-vs-finite-differences", f"{tag}:param-gradient:{sem}:{kind}",
                                 f"tensor #{ti} shape {t.shape}: autograd {dd!r} finite-diff {fd2!r} (tol {tolv:.2e})")
         checked += 1
-    if cont_cols:
+    if cont_cols and not hidden_zero:
         dX = np.zeros_like(X)
         dX[:, cont_cols] = rng.normal(size=(X.shape[0], len(cont_cols)))
         fd1 = (Lref(vals, X + h * dX) - Lref(vals, X - h * dX)) / (2 * h)
@@ -208,5 +217,7 @@ def run_case(case):
         classes.append("rewritten")
     if not nonzero:
         classes.append("reference-has-zeros")
-    nt = checked > 0 and (folded or rew or sem != "sum-product")
+    if hidden_zero:
+        classes.append("hidden-zero-in-log-space(values-not-compared)")
+    nt = (checked > 0 or hidden_zero) and (folded or rew or sem != "sum-product")
     return {"nontrivial": nt, "classes": sorted(set(classes))}
